@@ -27,6 +27,7 @@ from ..report import Check
 
 def run(chk: Check) -> None:
     ix = get_index()
+    run_crawl_order(chk, ix)
     r1 = chk.rule("R18.1", "load_graph: every insertion of a State into the graph is dominated by the duplicate test for its kind (module id already in graph / file already seen under another id), whose clash branch reports a blocker and raises", floor=5)
     lg = ix.func("mypy.build.load_graph")
     g = CFG(lg.node)
@@ -105,3 +106,24 @@ def run(chk: Check) -> None:
         r2.ok("both sides build the package marker from '__init__' + a suffix of the table", fs.relpath)
     else:
         r2.violation("both sides build the package marker from '__init__' + a suffix of the table", fs.relpath, f"package marker literals differ: {sorted(lits_fs)} / {sorted(lits_mf)}")
+
+
+def run_crawl_order(chk: Check, ix) -> None:
+    """R18.3: an explicit package base stops the upward crawl before anything else is looked at."""
+    r3 = chk.rule("R18.3", "SourceFinder._crawl_up_helper returns at an explicit package base before it considers the directory's __init__ file or recurses into the parent (imports resolve relative to the bases, so the name assigned to a file must be relative to them too)", floor=1)
+    f = ix.func("mypy.find_sources.SourceFinder._crawl_up_helper")
+    g = CFG(f.node)
+    base_tests = [n for n in g.nodes if n.kind == "test" and "is_explicit_package_base" in norm(n.exprs[0])]
+    recs = [n for n in g.nodes if any(call_name(c) in ("crawl_up_dir", "_crawl_up_helper") for c in n.calls())]
+    if not base_tests or not recs:
+        raise AnalysisError("_crawl_up_helper: explicit-base test or recursion not found")
+    t = base_tests[0]
+    tsucc = [m for m, lab in t.succ if lab == "true"]
+    first = tsucc[0] if tsucc else None
+    stops = first is not None and isinstance(first.stmt, ast.Return)
+    dominated = all(g.must_pass(g.entry, [r_], [t], labels_excluded=("exc",)) for r_ in recs)
+    key = "_crawl_up_helper: the explicit-base test precedes every recursion into the parent directory and returns there"
+    if stops and dominated:
+        r3.ok(key, f.loc(t.stmt))
+    else:
+        r3.violation(key, f.loc(t.stmt), "a directory that is an explicit package base can be crawled past (for example when it contains an __init__.py): files below it get a module name that includes the base directory's own name, while imports of them resolve relative to the base - the same file under two names")
